@@ -467,6 +467,17 @@ def r02g(model: Model, rr: RuleResult):
     fi = model.func("svg", "_define_radial_gradient")
     cfg = cfg_of(fi)
     want = {"fx": [("paint.c0 == paint.c1", False)], "fy": [("paint.c0 == paint.c1", False)], "fr": [("paint.r0 == 0", False)], "cx": [], "cy": [], "r": []}
+    # the writers emit the gradient they are given: a writer that first replaces it by a "simpler equivalent" (folding r0 into the stops, merging stops) changes the picture
+    # whenever the rewrite's own side conditions (concentric circles, pad) are not all tested
+    for wname in ("_define_radial_gradient", "_define_linear_gradient"):
+        w_ = model.func("svg", wname)
+        pparam = next((p_ for p_ in w_.params if p_ == "paint"), None)
+        reb = [st for st in walk_body(w_) if isinstance(st, ast.Assign) and any(isinstance(t, ast.Name) and t.id == pparam for t in st.targets)] if pparam else []
+        if reb:
+            rr.bad(w_, reb[0], f"{wname} replaces the gradient it was asked to write (`{short(reb[0], 80)}`) before emitting its attributes and stops: geometry (r0, centres) or the stop list of "
+                   f"the emitted <{'radial' if 'radial' in wname else 'linear'}Gradient> differ from the paint's", construct=f"{wname}: paint rebound before writing")
+        else:
+            rr.ok(f"{wname} writes the gradient it is given (the parameter is never rebound)")
     seen = {}
     for st in walk_body(fi):
         if isinstance(st, ast.Assign) and len(st.targets) == 1 and isinstance(st.targets[0], ast.Subscript) and norm(st.targets[0].value).endswith(".attrib") \
@@ -510,3 +521,48 @@ def r02h(model: Model, rr: RuleResult):
                        f"element: nested opacity groups lose their nesting and the inner opacity replaces the outer one", construct="_add_glyph: enclosing group search order")
                 return
     rr.bad_shape(fi, fi.node, "the search for the enclosing group element is not the longest-prefix-first walk", construct="_add_glyph: enclosing group search")
+
+
+@RULES.rule("C02", "R02i", "rounding a gradient for the SVG writer keeps its stop list one to one (no stop dropped, merged or reordered)", floor=2)
+def r02i(model: Model, rr: RuleResult):
+    """Two stops on one offset are how SVG (and COLR) spell a hard colour edge: a rounding step that folds stops by offset turns the edge into a blend."""
+    from .. import report as _rep
+    pm = model.mod("paint")
+    n = 0
+    for fi in pm.functions.values():
+        if isinstance(fi.node, ast.Lambda) or fi.name != "round" or not fi.cls or "Gradient" not in fi.cls:
+            continue
+        for c in calls_in(fi):
+            v = kwarg(c, "stops")
+            if v is None:
+                continue
+            n += 1
+            label = f"{fi.qualname}: stops={short(v, 60)}"
+            inner = v.args[0] if isinstance(v, ast.Call) and norm(v.func) in ("tuple", "list") and len(v.args) == 1 else v
+            if isinstance(inner, (ast.GeneratorExp, ast.ListComp)) and len(inner.generators) == 1 and not inner.generators[0].ifs \
+                    and norm(inner.generators[0].iter).endswith(".stops") and isinstance(inner.generators[0].target, ast.Name) \
+                    and inner.generators[0].target.id in {x.id for x in ast.walk(inner.elt) if isinstance(x, ast.Name)}:
+                rr.ok(f"{label}: one rounded stop per stop, in order")
+                continue
+            if norm(v).endswith(".stops"):
+                rr.ok(f"{label}: stops carried over unchanged")
+                continue
+            callee = model.resolve_call(fi, v) if isinstance(v, ast.Call) else None
+            if isinstance(inner, ast.Name) and inner.id not in fi.params:
+                callee = fi  # the list is assembled in the method itself (a helper the normal form inlined, or a hand-written loop)
+            if callee is not None and not isinstance(callee.node, ast.Lambda) and (callee is fi or _rep.CURRENT_DRIFT.get(callee.fq, 0) is None):
+                # a new helper builds the list: any overwrite of an element already pushed, or a push under a condition, makes it shorter than its input
+                over = [x for x in ast.walk(callee.node) if isinstance(x, ast.Assign) and isinstance(x.targets[0], ast.Subscript) and isinstance(x.targets[0].slice, (ast.UnaryOp, ast.Constant, ast.Name))]
+                cond = [x for x in ast.walk(callee.node) if isinstance(x, ast.If) and any(isinstance(y, ast.Call) and callee_tail(y) in ("append", "add", "pop", "remove") for y in ast.walk(x))]
+                filt = [x for x in ast.walk(callee.node) if isinstance(x, (ast.GeneratorExp, ast.ListComp)) and any(g.ifs for g in x.generators)]
+                if over or cond or filt:
+                    w = (over or cond or filt)[0]
+                    rr.bad(callee, w, f"{fi.qualname} builds its rounded stops with {callee.name}, which replaces / skips stops ({short(w, 70)}): stops that share an offset - the spelling of a "
+                           f"hard colour edge - are folded into one, so the OT-SVG gradient blends where the source has an edge", construct=f"{fi.qualname}: stops folded by {callee.name}")
+                    continue
+            if isinstance(inner, (ast.GeneratorExp, ast.ListComp)) and any(g.ifs for g in inner.generators):
+                rr.bad(fi, v, f"{fi.qualname} filters the stops while rounding ({short(v, 80)}): a gradient loses stops on its way to the SVG", construct=f"{fi.qualname}: stops filtered")
+                continue
+            rr.bad_shape(fi, v, "the rounded gradient's stops are not one rounded stop per source stop", construct=f"{fi.qualname}: stops")
+    if n < 2:
+        raise AnalysisError(f"R02i: only {n} gradient round() methods with a stops= argument found")
